@@ -99,7 +99,6 @@ theorem validate_ok_iff (i : PriorInput) (names : List Name) :
   | true =>
     cases hps : i.parsStatus with
     | invalid => simp
-    | crash => simp
     | ok =>
       cases hp : i.polyTrend with
       | none => simp
